@@ -183,6 +183,130 @@ def h_factor_and_simplify(eng):
     eng.prove("factor.zero_set_preserved", z3.Implies(pre, (denote(r, env) == 0) == (denote(eq, env) == 0)), result=repr(r))
 
 
+# ------------------------------------------------------------------------------------------------ eliminable variables: derivatives
+class Env(dict):
+    def __missing__(self, k):
+        self[k] = z3.Real("val_" + k)
+        return self[k]
+
+
+def elim_loop_selector(fn):
+    """the eliminable_variable_expression block up to and including the loop over the equations that records (variable, value) pairs"""
+    import ast
+    body = M.block_selector("eliminable_variable_expression")(fn)
+    for i, st in enumerate(body):
+        if isinstance(st, ast.For) and isinstance(st.iter, ast.Attribute) and st.iter.attr == "equations":
+            return body[:i + 1]
+    raise KeyError("equation loop")
+
+
+# (variable, value) definitions in the order the equations are written; every one matches the eliminable pattern
+ELIM_SYSTEMS = [
+    ("state defined by a state", [("_x", "s", "2*z")]),
+    ("state defined by an earlier-eliminated state", [("_y", "s", "3*z"), ("_x", "s", "2*_y")]),
+    ("state defined by a later-eliminated state", [("_x", "s", "2*_y"), ("_y", "s", "3*z")]),
+    ("state defined by an earlier-eliminated algebraic variable", [("_y", "a", "3*z"), ("_x", "s", "2*_y")]),
+    ("state defined by a later-eliminated algebraic variable", [("_x", "s", "2*_y"), ("_y", "a", "3*z")]),
+    ("state defined by time", [("_x", "s", "2*time+z")]),
+    ("state defined by a parameter expression", [("_x", "s", "p*z+p")]),
+    ("state defined by an algebraic variable that stays", [("_x", "s", "2*w")]),
+    ("three-link chain", [("_y", "s", "3*z"), ("_v", "a", "2*_y"), ("_x", "s", "_v*z")]),
+    ("state defined by an input", [("_x", "s", "2*u+z")]),
+]
+
+
+def h_eliminable_derivatives(eng):
+    """The loop of the eliminable-variable block with the REAL extract_assignment and the REAL get_derivative (chain rule through
+    ca.jacobian): every recorded pair (variable, value) -- in particular (der(v), derivative of v's value) for an eliminated state v --
+    must hold along every trajectory of the original system: with env any assignment of reals to the symbols that satisfies the
+    original defining equations AND their time derivatives (rate of time = 1, of parameters = 0, of an input = an arbitrary real the
+    model has no symbol for), denote(value) == env[variable].  Equations the code refuses to use (kept) need nothing."""
+    log = []
+    cas = M.install(eng, dict(M.chain_module_functions(), is_equal=stub(lambda eng, *a: True)))
+    eng.ext_modules["re"].attrs["compile"] = stub(lambda eng, *a: FixedPattern())
+    dv = eng.module_global(eng.load_module(MODEL), "_DefaultValue")
+    dv.constructor = lambda eng, c, a, k: VObj(c, {"value": a[0] if a else 0})
+    label, system = ELIM_SYSTEMS[eng.choice(len(ELIM_SYSTEMS))]
+    eng.input("system", label)
+    eng.input("equations", ["%s = %s" % (v, val) for v, _k, val in system])
+    names = {"z": "s", "w": "a", "p": "p", "u": "u", "time": "t"}
+    for v, k, _ in system:
+        names[v] = k
+    S = {n: sym(n) for n in names}
+    S.update({"der(%s)" % n: sym("der(%s)" % n) for n, k in names.items() if k == "s"})
+
+    def term(txt):
+        txt = txt.replace(" ", "")
+        if "+" in txt:
+            l, r = txt.split("+", 1)
+            return E("OP_ADD", term(l), term(r))
+        if "*" in txt:
+            l, r = txt.split("*", 1)
+            return E("OP_MUL", term(l), term(r))
+        if txt in S:
+            return S[txt]
+        return const(z3.RealVal(txt))
+    eqs, defs = [], {}
+    for v, k, val in system:
+        t = term(val)
+        defs[v] = t
+        eqs.append(E("OP_SUB", S[v], t))
+    var = lambda n: VObj(VClass("Variable"), {"symbol": S[n], "value": float("nan")})
+    model = VObj(VClass("Model"), {
+        "states": VList([var(n) for n, k in names.items() if k == "s"]), "der_states": VList([var("der(%s)" % n) for n, k in names.items() if k == "s"]),
+        "alg_states": VList([var(n) for n, k in names.items() if k == "a"]), "inputs": VList([var("u")]), "parameters": VList([var("p")]), "constants": VList([]),
+        "equations": VList(list(eqs)), "initial_equations": VList([]), "delay_arguments": VList([]), "time": S["time"]})
+    opts = VDict([("eliminable_variable_expression", "_.*"), ("expand_mx", True)])
+    try:
+        fr = eng.exec_fragment(MODEL, "Model._simplify_once", elim_loop_selector, {"self": model, "options": opts}, label="eliminable-variable-loop")
+    except PyRaise as e:
+        # a reported failure is allowed by the statement -- but only where the model really cannot be simplified soundly
+        eng.cover("elimder.raises")
+        eng.prove("elimder.failure_only_reported_for_an_input_rate", z3.BoolVal("input" in label), exc=repr(e.exc))
+        return
+    eng.cover("elimder.done")
+    variables, values = fr.locals["variables"].items, fr.locals["values"].items
+    env = Env()
+    # ---- trajectories of the original system
+    rate = {}
+
+    def rate_of(sm):
+        n = sm.nm
+        if n == "time":
+            return z3.RealVal(1)
+        if n == "p":
+            return z3.RealVal(0)
+        return env["der(%s)" % n]       # states, algebraic variables (their rate exists even if the model has no symbol for it) and the input
+
+    def total_derivative(t):
+        return z3.Sum([M.partial(t, sm, env) * rate_of(sm) for sm in M.symbols_of(t)] + [z3.RealVal(0)])
+    hyp = []
+    for v, t in defs.items():
+        hyp.append(env[v] == denote(t, env))
+        hyp.append(env["der(%s)" % v] == total_derivative(t))
+    hyp = z3.And(hyp)
+    recorded = []
+    for vr, vl in zip(variables, values):
+        nm = vr.nm
+        recorded.append(nm)
+        eng.prove("elimder.recorded_pair_holds_along_every_trajectory", z3.Implies(hyp, (denote(vl, env) if isinstance(vl, E) else M._val(vl)) == env[nm]),
+                  variable=nm, value=repr(vl)[:200])
+    # an eliminated state takes its derivative symbol along
+    for v, k, _ in system:
+        if v in recorded and k == "s":
+            eng.prove("elimder.eliminated_state_takes_its_derivative_along", z3.BoolVal("der(%s)" % v in recorded), variable=v)
+    eng.prove("elimder.no_pair_recorded_twice", z3.BoolVal(len(set(recorded)) == len(recorded)), recorded=recorded)
+
+
+class FixedPattern(Ext):
+    """re.compile("_.*"): matches the names that start with an underscore"""
+
+    def sym_getattr(self, eng, name):
+        if name == "match":
+            return stub(lambda eng, nm: nm.startswith("_"))
+        raise Unsupported("pattern.%s" % name)
+
+
 # ------------------------------------------------------------------------------------------------
 class AliasRel(Ext):
     """AliasRelation by its C17 contract: canonical_signed(n) = (canonical, sign) (a negated name flips the sign);
@@ -534,13 +658,16 @@ HARNESSES = [("Model._simplify_once#eliminate_constant_assignments", h_constant_
              ("Model._simplify_once.extract_assignment", h_extract_assignment),
              ("Model._simplify_once.factor_and_simplify", h_factor_and_simplify),
              ("Model._simplify_once._detect_alias", h_detect_alias), ("Model._simplify_once._make_alias", h_make_alias),
-             ("Model._simplify_once#reduce_affine_expression", h_reduce_affine)]
-EXPECTED_COVER = {"const.done", "extract.done", "factor.done", "detect.done", "make.done", "affine.done"}
+             ("Model._simplify_once#reduce_affine_expression", h_reduce_affine),
+             ("Model._simplify_once#eliminable-variable loop with the real get_derivative", h_eliminable_derivatives)]
+EXPECTED_COVER = {"const.done", "extract.done", "factor.done", "detect.done", "make.done", "affine.done", "elimder.done"}
 BOUNDED = True
 LEVEL = "proof"
 TRUSTED = ["pyvc VC generator", "z3 5.1.0",
            "the MX node API has the denotation of contracts/mx_algebra.py (is_op(OP_SUB) => value = dep0 - dep1, ...); substitute(e, x, v).is_zero() means e[x:=v] vanishes identically",
-           "ca.substitute performs the recorded bindings in the remaining equations (C15 checks that every eliminated symbol is passed to it)"]
+           "ca.substitute performs the recorded bindings in the remaining equations (C15 checks that every eliminated symbol is passed to it)",
+           "ca.jacobian / ca.Function / sparsity / ca.mtimes in get_derivative's chain-rule branch denote sum_j (d expr / d dep_j) * der_j (contracts/mx_algebra.py: partial, chain)",
+           "one-operand CasADi operations outside the ROOT_PRESERVING table of contracts/mx_algebra.py are arbitrary real functions; the op codes and the list of one-operand operations are read from the installed package"]
 ASSUMPTIONS = [
     "rule soundness only: the projection argument for the whole pipeline (composition over passes, fixpoint loops of ca.substitute, reduce_affine_expression, vector equations) is an argument in DESIGN.md, not machine-checked",
     "IF_ELSE_ZERO(c, x - v) binds x := if_else(c, v, 0): proved where c holds (where c is false the original equation is 0 = 0, an under-determined system, outside 'equations determine the unknowns'); the two-branch form assumes exactly one of the two conditions holds (they come from one if_else)",
@@ -550,7 +677,7 @@ ASSUMPTIONS = [
 EXPLANATION = "Soundness of each rewrite rule of simplify() over the assumed MX algebra."
 MANIFEST = {
     "category": "proof",
-    "text": "Each rewrite rule of simplify() is extracted structurally from the real _simplify_once and executed on every equation shape its pattern matcher distinguishes, with symbolic leaves: the recorded binding (constant value, eliminated-variable expression, signed alias) is proved EQUIVALENT to the dropped equation for all values of the symbols (z3, real arithmetic), factor_and_simplify preserves the zero set under the statement's precondition, and _make_alias records exactly one correctly signed alias when it reports success. A bounded replay compares simplified and unsimplified residuals on generated models with a known unique solution.",
+    "text": "Each rewrite rule of simplify() is extracted structurally from the real _simplify_once and executed on every equation shape its pattern matcher distinguishes, with symbolic leaves: the recorded binding (constant value, eliminated-variable expression, signed alias) is proved EQUIVALENT to the dropped equation for all values of the symbols (z3, real arithmetic), factor_and_simplify preserves the zero set under the statement's precondition, and _make_alias records exactly one correctly signed alias when it reports success. The eliminable-variable loop is executed with the real extract_assignment and the real get_derivative (chain rule through ca.jacobian, modelled by symbolic partial derivatives): every recorded pair, in particular (der(v), derivative of v's defining expression) for an eliminated differentiated variable, holds along every trajectory of the original equations and their time derivatives (rate of time 1, of parameters 0, of an input an arbitrary real), for chains of eliminated variables in both orders. A bounded replay compares simplified and unsimplified residuals on generated models with a known unique solution.",
     "note": "Assumed MX algebra; per-rule soundness only (the composition is argued, not proved); the non-affine slow-path alias is a known finding.",
     "technique": "contract-based deductive verification: structural fragment extraction of nested functions, symbolic execution over an assumed term algebra, real-arithmetic VCs, z3",
 }
